@@ -138,3 +138,122 @@ Lemma pbest_not_found s cands : retained s cands = None -> ps_d (pbest s cands) 
 Proof.
   unfold retained, pbest. destruct (pscan (ps_d s) (ps_o s) cands) as [o' [m|]]; cbn [snd]; [discriminate|]. reflexivity.
 Qed.
+
+(* ---------- bestSwapUpdate under the invariant ---------- *)
+Definition from_ok (d : dstate) (from : option nat) : Prop := forall f, from = Some f -> held d f = true.
+
+Section Term.
+  Variables (c : circuit) (rh : Z) (nets : list (list hpin)).
+  Hypothesis SD : std_design c rh.
+
+  Lemma bsu_spec s cc from nb : PInv c rh nets s -> held (ps_d s) cc = true -> from_ok (ps_d s) from ->
+    exists r, best_swap_update s cc from nb = ROk r /\ PInv c rh nets (bs_state r) /\
+      held (ps_d (bs_state r)) (bs_c r) = true /\ from_ok (ps_d (bs_state r)) (bs_from r) /\
+      rest (ps_d (bs_state r)) (bs_c r) = rest (ps_d s) cc /\
+      (bs_found r = true -> ovalue (ps_o (bs_state r)) < ovalue (ps_o s)).
+  Proof.
+    intros HP Hc Hf. unfold best_swap_update.
+    assert (Hcs : exists cands, bsu_cands (ps_d s) from (Z.to_nat nb) = Some cands).
+    { unfold bsu_cands. destruct from as [f|]; [|eexists; reflexivity].
+      pose proof (proj1 (held_find _ _) (Hf f eq_refl)) as H.
+      destruct (find_row (d_rows (ps_d s)) f 0) as [[[[[i r] a] m] b]|]; [eexists; reflexivity|congruence]. }
+    destruct Hcs as [cands ->]. set (ms := swap_cands cc cands).
+    assert (HM : forallb is_move ms = true) by apply swap_cands_moves.
+    assert (HQ : Forall (fun m => exists x, m = MSwap cc x) ms).
+    { apply Forall_forall. intros m Hm. apply in_map_iff in Hm as (x & <- & _). exists x. reflexivity. }
+    destruct (pbest_step c rh nets s ms SD HP HM) as [HP' _].
+    assert (NF : forall r, r = {| bs_state := pbest s ms; bs_found := false; bs_c := cc; bs_from := from |} ->
+                 ps_d (pbest s ms) = ps_d s ->
+                 PInv c rh nets (bs_state r) /\ held (ps_d (bs_state r)) (bs_c r) = true /\ from_ok (ps_d (bs_state r)) (bs_from r) /\
+                 rest (ps_d (bs_state r)) (bs_c r) = rest (ps_d s) cc /\ (bs_found r = true -> ovalue (ps_o (bs_state r)) < ovalue (ps_o s))).
+    { intros r -> E. cbn [bs_state bs_c bs_from bs_found]. rewrite E. split; [exact HP'|]. split; [exact Hc|]. split; [exact Hf|]. split; [reflexivity|intros H; discriminate H]. }
+    destruct (retained s ms) as [m|] eqn:R.
+    - destruct (pbest_found c rh nets s ms _ m HP HQ R) as (Qm & d' & A & Ed & Lt). cbn beta in Qm. destruct Qm as (x & ->).
+      eexists. split; [reflexivity|]. cbn [bs_state bs_c bs_from bs_found].
+      cbn [apply_mop] in A. pose proof HP as (_ & _ & _ & ND & _).
+      pose proof (swap_rest (ps_d s) cc x d' ND A) as SR. rewrite <- Ed in SR.
+      assert (Hx : held (ps_d (pbest s ms)) x = true).
+      { apply rest_held. rewrite SR. apply rest_held. exact Hc. }
+      split; [exact HP'|]. split; [exact Hx|]. split; [|split; [exact SR|intros _; exact Lt]].
+      intros f. destruct (opt_nat_eqb (Some x) from).
+      + intros [= <-]. exact (held_steps c rh nets s _ cc SD HP HP' Hc).
+      + intros E. exact (held_steps c rh nets s _ f SD HP HP' (Hf f E)).
+    - eexists. split; [reflexivity|]. apply NF; [reflexivity|]. apply pbest_not_found. exact R.
+  Qed.
+End Term.
+
+(* ---------- (a) the while loop, (b) the walk ---------- *)
+Section Term2.
+  Variables (c : circuit) (rh : Z) (nets : list (list hpin)).
+  Hypothesis SD : std_design c rh.
+
+  Definition wstate_ok (s0 : pstate) (c0 : nat) (st : pstate * nat * option nat) : Prop :=
+    let '(s, cc, from) := st in
+    PInv c rh nets s /\ held (ps_d s) cc = true /\ from_ok (ps_d s) from /\ rest (ps_d s) cc = rest (ps_d s0) c0.
+
+  Theorem run_while_total s cc from nb : PInv c rh nets s -> held (ps_d s) cc = true -> from_ok (ps_d s) from ->
+    exists st, run_while s cc from nb = ROk st /\ wstate_ok s cc st.
+  Proof.
+    intros HP Hc Hf. unfold run_while, while_fuel.
+    destruct (loop_pos_measure (wstate_ok s cc) (fun r => exists st, r = ROk st /\ wstate_ok s cc st)
+                (fun st => ovalue (ps_o (fst (fst st)))) (while_body nb)) with (s := (s, cc, from)) as (r & E & st & -> & Hst).
+    - intros [[s1 c1] f1] (H1 & _). cbn [fst]. exact (ovalue_nonneg c rh nets s1 H1).
+    - intros [[s1 c1] f1] (H1 & H2 & H3 & H4). unfold while_body.
+      destruct (bsu_spec c rh nets SD s1 c1 f1 nb H1 H2 H3) as (r & -> & A & B & C & D & Lt).
+      destruct (bs_found r) eqn:Fd.
+      + split; [|cbn [fst]; exact (Lt eq_refl)]. unfold wstate_ok. split; [exact A|]. split; [exact B|]. split; [exact C|]. congruence.
+      + eexists. split; [reflexivity|]. unfold wstate_ok. split; [exact A|]. split; [exact B|]. split; [exact C|]. congruence.
+    - unfold wstate_ok. split; [exact HP|]. split; [exact Hc|]. split; [exact Hf|reflexivity].
+    - cbn [fst] in E. rewrite E. exists st. split; [reflexivity|exact Hst].
+  Qed.
+
+  Lemma fca_walk_in tx : forall b cur, fca_walk tx cur b = cur \/ In (fca_walk tx cur b) (map p_id b).
+  Proof.
+    induction b as [|n t IH]; intros cur; cbn [fca_walk map In]; [left; reflexivity|].
+    destruct (tx <? p_x n); [left; reflexivity|]. destruct (IH (p_id n)) as [->|H]; right; [left; reflexivity|right; exact H].
+  Qed.
+
+  Lemma find_cell_after_ok d target from : held d target = true -> from_ok d from ->
+    exists f2, find_cell_after d target from = Some f2 /\ from_ok d f2.
+  Proof.
+    intros Ht Hf. unfold find_cell_after, cell_x. destruct from as [f|]; [|exists None; split; [reflexivity|intros ? [=]]].
+    pose proof (proj1 (held_find _ _) (Hf f eq_refl)) as H1. pose proof (proj1 (held_find _ _) Ht) as H2.
+    destruct (find_row (d_rows d) f 0) as [[[[[i r] a] m] b]|] eqn:F; [|congruence].
+    destruct (find_row (d_rows d) target 0) as [[[[[i' r'] a'] m'] b']|]; [|congruence].
+    eexists. split; [reflexivity|]. intros g [= <-].
+    destruct (fca_walk_in (p_x m') b f) as [->|Hin]; [exact (Hf f eq_refl)|].
+    destruct (find_row_place _ _ _ _ _ _ _ F) as (N & C & _). apply in_map_iff in Hin as (p & <- & Hp).
+    apply held_find. apply (find_row_complete _ _ r p 0 (nth_error_In _ _ N)); [|reflexivity].
+    rewrite C. apply in_or_app. right. right. exact Hp.
+  Qed.
+
+  Theorem amplify_walk_total nb : forall fuel s cc from k,
+    PInv c rh nets s -> held (ps_d s) cc = true -> from_ok (ps_d s) from -> rest (ps_d s) cc = Some k -> (k < fuel)%nat ->
+    exists s', amplify_walk fuel s cc from nb = ROk s'.
+  Proof.
+    induction fuel as [|fuel IH]; intros s cc from k HP Hc Hf Hr Hk; [lia|]. cbn [amplify_walk].
+    destruct (run_while_total s cc from nb HP Hc Hf) as ([[s1 c1] f1] & -> & H1 & H2 & H3 & H4).
+    destruct (find_cell_after_ok (ps_d s1) c1 f1 H2 H3) as (f2 & -> & Hf2).
+    pose proof H1 as (_ & _ & _ & ND & _).
+    unfold cell_next. pose proof (proj1 (held_find _ _) H2) as Hfr.
+    destruct (find_row (d_rows (ps_d s1)) c1 0) as [[[[[i r] a] m] b]|] eqn:F; [|congruence].
+    destruct (head_id b) as [c2|] eqn:Hh; [|eexists; reflexivity].
+    destruct (next_rest (ps_d s1) c1 c2 ND) as (k' & R1 & R2); [rewrite F; exact Hh|].
+    apply (IH s1 c2 f2 k' H1); [|exact Hf2|exact R2|].
+    - apply rest_held. rewrite R2. discriminate.
+    - rewrite H4, Hr in R1. injection R1 as ->. lia.
+  Qed.
+
+  Theorem amplify_total s r1 r2 nb : PInv c rh nets s -> exists s', run_swaps_two_rows_amplify s r1 r2 nb = ROk s'.
+  Proof.
+    intros HP. unfold run_swaps_two_rows_amplify, row_first, walk_fuel.
+    destruct (row_ids (ps_d s) r1) as [|cc t] eqn:E1; [eexists; reflexivity|].
+    pose proof HP as (_ & _ & _ & ND & _).
+    apply (amplify_walk_total nb _ s cc _ (length t) HP).
+    - apply (in_row_held _ r1). rewrite E1. left. reflexivity.
+    - intros f Hf. destruct (row_ids (ps_d s) r2) as [|x u] eqn:E2; [discriminate|]. injection Hf as <-.
+      apply (in_row_held _ r2). rewrite E2. left. reflexivity.
+    - exact (first_rest (ps_d s) r1 cc t ND E1).
+    - cbn [length]. lia.
+  Qed.
+End Term2.
